@@ -194,6 +194,9 @@ func (c *Ctx) continueAfter(s *State, b *ssa.BasicBlock, after ssa.Instruction, 
 			} else if cond.S == "false" {
 				next = fb
 			} else {
+				if i := strings.Index(cond.S, "opq|"); i >= 0 {
+					s.opqDep = opqName(cond.S[i:])
+				}
 				s2 := s.clone()
 				s2.assume(Not(cond))
 				s.assume(cond)
@@ -1319,4 +1322,15 @@ func (c *Ctx) copyLockCheck(s *State, x *ssa.UnOp, p Sc) {
 	fresh := c.isFreshLocal(s, p.T)
 	c.structural(fresh, "copylock", name, posOf(c.eng.prog, x),
 		"copy of a value containing a mutex ("+x.Type().String()+") from shared memory: the copy is not protected by (and diverges from) the original", []string{"C19", "C07"})
+}
+
+// opqName extracts the callee name from a symbol "opq|name!N..." (result of a call without contract).
+func opqName(sym string) string {
+	sym = strings.TrimPrefix(sym, "opq|")
+	for i, ch := range sym {
+		if ch == '!' || ch == '|' || ch == ' ' || ch == ')' || ch == '.' && i > 0 && strings.HasPrefix(sym[i:], ".#") {
+			return sym[:i]
+		}
+	}
+	return sym
 }
